@@ -13,6 +13,7 @@
    c02.jdec json|jsonl <nprof> <lit=canon…> <hex>
        number profile: hex(literal)=hex(FormatFloat(ParseFloat literal)) or hex(literal)=! (ParseFloat fails)
        JSON cells: N | S<hex> | I<hex decimal text> | F<hex decimal text> | X (NaN/Inf) | B0 B1 | T0 T1 TU | D<hex>
+   c02.jlb <hex bytes>                           the line break of a JSON / JSON Lines file: LF | CRLF | CR | -
    c02.nop                                                                          (law-only case)
 
    delim = code point (decimal); booleans 0/1; text = hex of UTF-8; header tokens `S<hex>`;
@@ -271,6 +272,17 @@ def jdec (args : List String) : String :=
     | _ => "bad-op"
   | _ => "bad-op"
 
+def jlb (args : List String) : String :=
+  match args with
+  | [hx] =>
+    if hx = "-" then "-" else
+    match unhex hx with
+    | some b =>
+      let r := Json.firstBreak false false b
+      if r = "" then "-" else r
+    | none => "bad-op"
+  | _ => "bad-op"
+
 end C02
 
 def c02 (cmd : String) (args : List String) : String :=
@@ -286,6 +298,7 @@ def c02 (cmd : String) (args : List String) : String :=
   | "junesc", rest => C02.junesc rest
   | "jenc", rest => C02.jenc rest
   | "jdec", rest => C02.jdec rest
+  | "jlb", rest => C02.jlb rest
   | "nop", [] => "ok"     -- a case whose law is checked on the implementation alone
   | _, _ => "bad-op"
 
